@@ -35,13 +35,14 @@ type Use struct {
 //	assets          seed(GotChildren) -> 1..4 assets                     (checked as "asset")
 //	asset-redirect  seed(GotChildren) -> asset(GotRedirected) -> target  (target checked as "seed")
 //	asset-assets    seed(GotChildren) -> asset(GotChildren) -> 1..4 assets
+//	assets-redirects seed(GotChildren) -> 2..3 assets, each GotRedirected -> its target (2..3 nodes checked as "seed" in one call)
 type Op struct {
 	Kind   string `json:"kind"`
 	Anc    []Use  `json:"anc"`
 	Leaves []Use  `json:"leaves"`
 }
 
-var opKinds = []string{"seed", "seed", "redirect", "assets", "assets", "assets", "asset-redirect", "asset-assets"}
+var opKinds = []string{"seed", "seed", "redirect", "assets", "assets", "assets", "asset-redirect", "asset-assets", "assets-redirects"}
 
 // GenUse draws a use of one pool URL with a fresh spelling.
 func GenUse(t *rapid.T, label string, pool []verifgen.SeenLogical) Use {
@@ -62,6 +63,9 @@ func GenOp(t *rapid.T, label string, pool []verifgen.SeenLogical) Op {
 		nAnc = 2
 	case "asset-assets":
 		nAnc, nLeaves = 2, rapid.IntRange(1, 4).Draw(t, label+".n")
+	case "assets-redirects":
+		nLeaves = rapid.IntRange(2, 3).Draw(t, label+".n")
+		nAnc = 1 + nLeaves
 	}
 	for i := 0; i < nAnc; i++ {
 		op.Anc = append(op.Anc, GenUse(t, fmt.Sprintf("%s.anc%d", label, i), pool))
@@ -218,6 +222,19 @@ func Build(pool []verifgen.SeenLogical, op Op, ns string, opIdx int, leavesNorma
 	}
 	seed := newItem(op.Anc[0], true, nil, false)
 	var nodes []Node
+	if op.Kind == "assets-redirects" {
+		for i, u := range op.Leaves {
+			a := newItem(op.Anc[1+i], true, seed, false)
+			must(seed.AddChild(a, models.ItemGotChildren))
+			ch := newItem(u, leavesNormalized, a, true)
+			must(a.AddChild(ch, models.ItemGotRedirected))
+			nodes = append(nodes, node(ch, u, "seed"))
+		}
+		if err := seed.CheckConsistency(); err != nil {
+			panic("harness: inconsistent tree: " + err.Error())
+		}
+		return seed, nodes
+	}
 	last, edge, typ := seed, models.ItemGotChildren, "asset"
 	switch op.Kind {
 	case "redirect":
